@@ -21,6 +21,7 @@ def run(ctx):
                         "counter mismatch, declared length exceeding the frame, invalid transition) or by a size limit that only rejects reassembled "
                         "payloads above 65535 bytes (linear form over buffer size and declared length)")
     res.not_decided += ["exactly-once delivery under every interleaving (history/schedule quantifier): only the structural premises are decided"]
+    D.rule_segtype_subject(res, "C05-R5", m)
     D.rule_keyed_access(res, "C05-R1", m)
     D.rule_key_equality(res, "C05-R2", m)
     D.rule_modular_successor(res, "C05-R3", m)
